@@ -12,10 +12,10 @@ import msuite
 from common import rng_for, PYTHON, VERIF, REPO
 
 PID = 'C02'
-TAGS = ['abegin', 'awaited', 'got', 'lenter', 'levels', 'benter', 'tick', 'caught', 'taskret', 'tfin', 'sexit', 'now']
+TAGS = ['abegin', 'awaited', 'got', 'lenter', 'levels', 'lvorder', 'benter', 'tick', 'caught', 'taskret', 'tfin', 'sexit', 'now']
 RULE = ('random whole-API programs (timers, flags, tracked values, locks, queues, channels, resources, scopes, cancels; plus '
         'many waiters on one tracked value / resource, several equal-date conditions armed through one connective and watched separately, '
-        '6-12 distinct dates pending at once and requested in arbitrary order, a float-time profile with non-dyadic dates, pipe transfers) run in-process and in 4 (quick) / 8 (thorough) other configurations '
+        '6-12 distinct dates pending at once and requested in arbitrary order, a float-time profile with non-dyadic dates, pipe transfers, throw-away supplies whose names are spelled in different orders) run in-process and in 4 (quick) / 8 (thorough) other configurations '
         '{PYTHONHASHSEED, junk allocations, USIM_WAITQUEUE=SD, python -O}; every configuration must give the same trace as the '
         'in-process run, which must equal the model trace; non-trivial = at least 4 events from at least 2 activities')
 
@@ -39,6 +39,24 @@ def tracked_family(rng):
     rng.shuffle(roots)
     return ['scenario', ['debug', 1], ['start', 0], ['flags', 1], ['locks', 0], ['tracked', 0], ['resources', ['res', 0, 6, 4]],
             ['roots'] + roots]
+
+
+def pool_family(rng):
+    """supplies with the same resource names spelled in different orders, created and dropped one after the other (a weak
+    cache of specialised level classes must not make the result depend on which spelling came first or on when the garbage
+    collector ran), between ordinary borrowing"""
+    roots = []
+    for i in range(rng.randint(1, 3)):
+        prog = []
+        for _ in range(rng.randint(1, 4)):
+            k = rng.randint(2, 4)
+            prog.append(['respool'] + rng.sample(range(k), k))
+            if rng.random() < 0.5:
+                prog.append(['sleep', rng.choice([0, 1])])
+            if rng.random() < 0.4:
+                prog.append(['borrow', 0, [rng.randint(0, 2), rng.randint(0, 2)], 10 + i, ['levels', 0]])
+        roots.append(['prog'] + prog)
+    return ['scenario', ['debug', 1], ['start', 0], ['flags', 1], ['locks', 0], ['resources', ['res', 0, 6, 4]], ['roots'] + roots]
 
 
 def connective_family(rng):
@@ -102,6 +120,8 @@ def run(tier, seed, drv, scenarios=None):
             rng = rng_for(seed, PID, i)
             if i % 8 == 0:
                 scenarios.append(('rat', connective_family(rng)))
+            elif i % 16 == 3:
+                scenarios.append(('rat', pool_family(rng)))
             elif i % 8 == 5:
                 # pipes (float time): transfers that overlap, are abandoned by deadlines / cancels and follow each other
                 scenarios.append(('float', c13.family(rng)))
